@@ -123,7 +123,7 @@ def _replace_returns(body, mk):
     return out
 
 
-def _inline_call(methods, call, how, target, depth, stop=(), ho_only=False):
+def _inline_call(methods, call, how, target, depth, stop=(), ho_only=False, impure=False):
     """-> list of statements replacing the statement that contains `call`, or None"""
     f = call.func
     if isinstance(f, ast.Name) and ('func:' + f.id) in methods and f.id.startswith('_') and not f.id.startswith('__') and f.id not in stop:
@@ -154,7 +154,7 @@ def _inline_call(methods, call, how, target, depth, stop=(), ho_only=False):
             if p not in defaults:
                 return None
             bound[p] = defaults[p]
-    if not all(_pure_arg(a) for a in bound.values()):
+    if not impure and not all(_pure_arg(a) for a in bound.values()):
         return None
     body = [s for s in callee.body if not (isinstance(s, ast.Expr) and isinstance(s.value, ast.Constant))]
     if not _tail_returns_only(body):
@@ -188,7 +188,7 @@ def _inline_call(methods, call, how, target, depth, stop=(), ho_only=False):
             if not hasattr(n, 'lineno'):
                 n.lineno = call.lineno
                 n.col_offset = 0
-    return flatten_body(methods, out, depth - 1, None, stop, ho_only) if depth > 0 else out
+    return flatten_body(methods, out, depth - 1, None, stop, ho_only, impure) if depth > 0 else out
 
 
 def _tuple_literal(e, consts):
@@ -199,7 +199,7 @@ def _tuple_literal(e, consts):
     return None
 
 
-def flatten_body(methods, body, depth=3, consts=None, stop=(), ho_only=False):
+def flatten_body(methods, body, depth=3, consts=None, stop=(), ho_only=False, impure=False):
     consts = dict(consts or {})
     out = []
     for st in body:
@@ -208,11 +208,11 @@ def flatten_body(methods, body, depth=3, consts=None, stop=(), ho_only=False):
             consts[st.targets[0].id] = st.value.elts
         rep = None
         if isinstance(st, ast.Expr) and isinstance(st.value, ast.Call):
-            rep = _inline_call(methods, st.value, 'stmt', None, depth, stop, ho_only)
+            rep = _inline_call(methods, st.value, 'stmt', None, depth, stop, ho_only, impure)
         elif isinstance(st, ast.Return) and isinstance(st.value, ast.Call):
-            rep = _inline_call(methods, st.value, 'return', None, depth, stop, ho_only)
+            rep = _inline_call(methods, st.value, 'return', None, depth, stop, ho_only, impure)
         elif isinstance(st, ast.Assign) and len(st.targets) == 1 and isinstance(st.value, ast.Call) and isinstance(st.targets[0], (ast.Name, ast.Attribute)):
-            rep = _inline_call(methods, st.value, 'assign', st.targets[0], depth, stop, ho_only)
+            rep = _inline_call(methods, st.value, 'assign', st.targets[0], depth, stop, ho_only, impure)
         if rep is not None:
             out.extend(rep)
             continue
@@ -247,23 +247,24 @@ def flatten_body(methods, body, depth=3, consts=None, stop=(), ho_only=False):
                         break
                     unrolled.extend(_Subst(mapping).visit(copy.deepcopy(s)) for s in st.body)
                 if ok:
-                    out.extend(flatten_body(methods, unrolled, depth, consts, stop, ho_only))
+                    out.extend(flatten_body(methods, unrolled, depth, consts, stop, ho_only, impure))
                     continue
         if isinstance(st, ast.If):
             st = copy.copy(st)
-            st.body = flatten_body(methods, st.body, depth, consts, stop, ho_only)
-            st.orelse = flatten_body(methods, st.orelse, depth, consts, stop, ho_only)
+            st.body = flatten_body(methods, st.body, depth, consts, stop, ho_only, impure)
+            st.orelse = flatten_body(methods, st.orelse, depth, consts, stop, ho_only, impure)
         elif isinstance(st, (ast.For, ast.While)):
             st = copy.copy(st)
-            st.body = flatten_body(methods, st.body, depth, consts, stop, ho_only)
+            st.body = flatten_body(methods, st.body, depth, consts, stop, ho_only, impure)
         out.append(st)
     return out
 
 
-def flatten(methods, fn, depth=3, stop=(), ho_only=False):
+def flatten(methods, fn, depth=3, stop=(), ho_only=False, impure=False):
+    # impure=True: call-valued arguments are substituted too - the result is only analysed for its STRUCTURE, never for effects counts
     new = copy.deepcopy(fn)
     body = [s for s in new.body]
-    new.body = [_fold(s) for s in flatten_body(methods, body, depth, None, stop, ho_only)]
+    new.body = [_fold(s) for s in flatten_body(methods, body, depth, None, stop, ho_only, impure)]
     ast.fix_missing_locations(new)
     return new
 
